@@ -132,15 +132,41 @@ func TestMinimize(t *testing.T) {
 	if err != nil {
 		t.Fatal(err)
 	}
-	if rp.Kind != "file" {
-		t.Skip("only file programs are minimised")
-	}
 	run := Runners[rp.Property]
+	clause := os.Getenv("VERIF_MIN_CLAUSE")
+	if rp.Kind == "queue" {
+		var qp harness.QProgram
+		if err := json.Unmarshal(rp.Program, &qp); err != nil {
+			t.Fatal(err)
+		}
+		var lastMsg string
+		fails := func(q *harness.QProgram) bool {
+			res, err := run(q.JSON())
+			if err != nil || res.V == nil || (clause != "" && res.V.Clause != clause) {
+				return false
+			}
+			lastMsg = res.V.Msg
+			return true
+		}
+		if !fails(&qp) {
+			t.Fatalf("replay does not fail with clause %q", clause)
+		}
+		min := harness.MinimizeQProgram(&qp, fails, 2000)
+		fails(min)
+		rp.Program = min.JSON()
+		rp.Message = lastMsg
+		if err := rp.Save(out); err != nil {
+			t.Fatal(err)
+		}
+		return
+	}
+	if rp.Kind != "file" {
+		t.Skip("only file and queue programs are minimised")
+	}
 	var p harness.Program
 	if err := json.Unmarshal(rp.Program, &p); err != nil {
 		t.Fatal(err)
 	}
-	clause := os.Getenv("VERIF_MIN_CLAUSE")
 	var lastMsg string
 	fails := func(q *harness.Program) bool {
 		res, err := run(q.JSON())
